@@ -27,7 +27,7 @@ ASSUMPTIONS = [
     "with link faults enabled bring-up may raise; only a reported success is held to the adopt/second/format clauses",
     "command payload schemas inside the NCP model are bellows' own tables (header layouts and negotiation logic are independent)",
 ]
-PROBES = ["spontaneous_rstack_before_rst", "spontaneous_rstack_while_reset_pending", "startup_wait_timed_out", "startup_reset_consumed",
+PROBES = ["reset_with_command_queued", "spontaneous_rstack_before_rst", "spontaneous_rstack_while_reset_pending", "startup_wait_timed_out", "startup_reset_consumed",
           "bringup_raised_under_faults", "bringup_retry_after_faults_ok", "second_query_sent", "version_gt_14", "renegotiated_after_reset", "sched.batch", "sched.reorder"]
 
 VERSIONS = list(range(4, 21))
@@ -41,6 +41,11 @@ def plan(tier):
             # a spontaneous start-up reset is a property of socket NCPs (zigbeed); a UART NCP booted long before the host opened the port
             for boot in (BOOTS if sock else (None,)):
                 sweeps.append(("grid", {"V": V, "sock": sock, "boot": boot, "faults": False, "sched": False}))
+    # a later reset issued while ANOTHER caller's command is queued for the command slot (a keep-alive behind the command whose completion
+    # triggers the reset, as in ControllerApplication._reset() during write_network_info): every value of the host's frame counter
+    for V in (5, 8, 13):
+        for k in range(8):
+            sweeps.append(("grid", {"V": V, "sock": False, "boot": None, "faults": False, "sched": False, "racing": k}))
     return {
         "sweeps": sweeps,
         "exhaustive": "all cells NCP version 4..20 x {serial; socket:// x start-up reset {absent, 0.2 s, 0.999 s, exactly 1.0 s, 1.2 s, 2.5 s}} on a fault-free link with the benign schedule",
@@ -148,6 +153,46 @@ def run(scenario, params, tape, detail=False):
             st["eui"] = repr(e)
         # second reset + renegotiation
         nres = ncp.resets
+        racing = params.get("racing")
+        if racing is not None:
+            import bellows.types as bt
+
+            probe("reset_with_command_queued")
+            for _ in range(racing):
+                await ez.nop()
+            st["racing_reset_index"] = len(ncp.first_after_reset)
+            slow = {"on": True}
+
+            def deliver(req, payload):
+                req.nrsp += 1
+                ncp.emit(payload, 0.3 if (slow["on"] and req.name == "getEui64") else 0.0, "rsp", req.seq)
+
+            ncp.deliver = deliver
+
+            async def keepalive():
+                await asyncio.sleep(0.05)  # queued for the command slot behind getEui64; it has passed EZSP's running gate by then
+                try:
+                    st["racing_other"] = ("ok", await ez.getValue(valueId=bt.EzspValueId.VALUE_FREE_BUFFERS))
+                except Exception as e:  # noqa: BLE001
+                    st["racing_other"] = ("raised", repr(e))
+
+            other = loop.create_task(keepalive())
+            try:
+                await ez.getEui64()
+                slow["on"] = False
+                ez.stop_ezsp()  # what ControllerApplication._reset() does: stop, reset + negotiate, configure
+                await ez.startup_reset()
+                st["reset2"] = ("ok", 4, 4)
+                st["version2"] = ("ok", ez.ezsp_version, type(ez._protocol).VERSION, ncp.negotiated)
+                r = await ez.getEui64()
+                st["eui2"] = bytes(r[0].serialize())
+            except Exception as e:  # noqa: BLE001
+                st["second"] = ("raised", type(e).__name__, repr(e))
+            await asyncio.sleep(12.0)
+            if not other.done():
+                other.cancel()
+            st["resets_seen"] = ncp.resets - nres
+            return
         try:
             await ez.reset()
             st["reset2"] = ("ok", ez.ezsp_version, type(ez._protocol).VERSION)
@@ -259,6 +304,20 @@ def run(scenario, params, tape, detail=False):
                     probe("bringup_retry_after_faults_ok")
         else:
             live.append(("C09.config", "bringup-raised", f"fault-free bring-up raised {bring[1]} at t={bring[2]:.3f} (NCP v{V}, {'socket' if sock else 'serial'}, boot={boot})"))
+    ri = st.get("racing_reset_index")
+    racing_hit = ri is not None and ri < len(ncp.first_after_reset) and ncp.first_after_reset[ri] is not None and ncp.first_after_reset[ri][:2] != ("legacy", "version")
+    if racing_hit:
+        # one root cause: a command that was queued for the command slot when reset() was called is written between the RST and the RSTACK
+        first = ncp.first_after_reset[ri]
+        mine = [v for v in viol if (v[1] == "first-frame" and f"reset #{ri} " in v[2]) or v[0] == "C09.format"] + live
+        for v in mine:
+            if v in viol:
+                viol.remove(v)
+        live = []
+        viol.append(("C09.fallback", "command-queued-at-reset",
+                     f"NCP v{V}: a command of another caller was queued for the command slot when reset() was called (host frame counter {params.get('racing')}): it was written "
+                     f"after the RST and reached the freshly reset NCP as its first EZSP frame {first} in the old format instead of the legacy version query; consequences: "
+                     f"{[m[2][:140] for m in mine[:3]]}"))
     if live and late_spont:
         # one root cause: the NCP's start-up RSTACK completed the host's explicit reset early (DESIGN.md F6)
         viol.append(("C09.config", "late-startup-rstack",
